@@ -404,7 +404,7 @@ fn program_body(p: &Program, rec: &mut crate::core::Rec) -> crate::core::CaseRes
 
 // ---------------------------------------------------------------------------------------------
 
-pub fn check() -> Check {
+pub fn check() -> Option<Check> {
     let eq_hash = prop(
         "eq_hash",
         60_000,
@@ -674,7 +674,7 @@ pub fn check() -> Check {
         },
     );
 
-    Check {
+    Some(Check {
         id: "C04",
         level: "exploration",
         rule: "names: 0..127 labels of arbitrary octets (class mix: LDH, _srv, *, octets around the letter ranges, 0x00/0x80-0xFF, 63-octet labels, names packed to 250..255 wire octets, 100+ one-octet labels); pairs/triples derived by case flips, bit-5 flips of non-letters, one-octet edits, label insert/drop/split/merge, shared suffixes. Non-trivial = distinct case AND (equal-mod-case but not identical, or exactly one differing octet, or mixed FQDN flags, or first difference in a non-rightmost label / ancestor relation, or a length-boundary name, or the wire form used a compression pointer or lies at/after offset 0x3FFF, or a constructor program reached a length limit)",
@@ -683,5 +683,5 @@ pub fn check() -> Check {
             "hash consistency checked with two fixed hashers",
         ],
         subs: vec![eq_hash, order_pairs, order_sort, order_triples, wire, text, constructors, small],
-    }
+    })
 }
